@@ -1,31 +1,34 @@
 #!/venv/bin/python
 """apply each /verif/benign/*/patch.diff (behaviour-preserving refactors written by independent sub-agents) to /repo,
 run all quick checks, undo; every check must stay at exit 0.  usage: run_benign.py [substr ...]"""
-import json, pathlib, subprocess, sys
+import json, os, pathlib, subprocess, sys
+REPO = os.environ.get("CORPUS_REPO", "/repo")  # a scratch worktree may be given instead of /repo
+OUT = f"/tmp/benrun.{os.getpid()}.out"
+ENV = f"OFXTOOLS_VERIF_REPO={REPO} SA_NO_EVIDENCE={1 if REPO != '/repo' else 0} "
 ROOT = pathlib.Path("/verif/benign")
 man = json.load(open("/verif/MANIFEST.json"))
 checks = {c["property_id"]: c["quick_cmd"] for c in man["checks"]}
 def sh(cmd): return subprocess.run(cmd, shell=True, capture_output=True, text=True)
-assert sh("git -C /repo status --porcelain -- ofxtools").stdout.strip() == "", "/repo not clean"
+assert sh(f"git -C {REPO} status --porcelain -- ofxtools").stdout.strip() == "", f"{REPO} not clean"
 sel = sys.argv[1:]
 bad = 0
 for d in sorted(ROOT.iterdir()):
     if not (d / "patch.diff").exists() or (sel and not any(s in d.name for s in sel)):
         continue
-    r = sh(f"git -C /repo apply {d/'patch.diff'}")
+    r = sh(f"git -C {REPO} apply {d/'patch.diff'}")
     if r.returncode != 0:
         print(d.name, "PATCH DOES NOT APPLY", r.stderr[:200]); continue
     try:
         alarms = {}
         for pid, cmd in checks.items():
-            rr = sh(cmd + " >/tmp/benrun.out 2>&1; echo $?")
+            rr = sh(cmd.replace("cd /verif && ", "cd /verif && " + ENV) + f" >{OUT} 2>&1; echo $?")
             code = int(rr.stdout.strip().splitlines()[-1])
             if code != 0:
-                out = open("/tmp/benrun.out").read()
+                out = open(OUT).read()
                 lines = [l.strip() for l in out.splitlines() if l.strip().startswith("ofxtools/") or "ANALYSIS-ERROR" in l]
                 alarms[pid] = {"exit": code, "reports": lines[:3]}
     finally:
-        sh("git -C /repo checkout -- .")
+        sh(f"git -C {REPO} checkout -- .")
     meta = json.loads((d / "meta.json").read_text()) if (d / "meta.json").exists() else {"id": d.name}
     meta["alarms"] = alarms
     (d / "meta.json").write_text(json.dumps(meta, indent=1) + "\n")
@@ -34,7 +37,8 @@ for d in sorted(ROOT.iterdir()):
         bad += 1
         for l in v["reports"][:2]:
             print("      ", k, l[:220])
-assert sh("git -C /repo status --porcelain -- ofxtools").stdout.strip() == "", "/repo not clean after run"
-for pid, cmd in checks.items():
-    sh(cmd)
+assert sh(f"git -C {REPO} status --porcelain -- ofxtools").stdout.strip() == "", f"{REPO} not clean after run"
+if REPO == "/repo":
+    for pid, cmd in checks.items():
+        sh(cmd)
 sys.exit(1 if bad else 0)
